@@ -19,16 +19,16 @@ import (
 )
 
 type c10Act struct {
-	K    string `json:"k"`              // send bcast spoof xsess garbage noid close pause resume rst sleep
-	To   int    `json:"to,omitempty"`   // addressee: client index within the author's session (send/spoof/xsess); -1 = unknown peer
-	N    int    `json:"n,omitempty"`    // how many messages
+	K  string `json:"k"`            // send bcast spoof xsess garbage noid close pause resume rst sleep
+	To int    `json:"to,omitempty"` // addressee: client index within the author's session (send/spoof/xsess); -1 = unknown peer
+	N  int    `json:"n,omitempty"`  // how many messages
 }
 
 type c10Client struct {
-	Sess  int      `json:"session"`
-	ID    string   `json:"peer_id"`
-	Role  string   `json:"role"`
-	Acts  []c10Act `json:"acts"`
+	Sess int      `json:"session"`
+	ID   string   `json:"peer_id"`
+	Role string   `json:"role"`
+	Acts []c10Act `json:"acts"`
 }
 
 type c10Spec struct {
@@ -153,12 +153,12 @@ type c10Msg struct {
 }
 
 type c10State struct {
-	connected   bool
-	listStep    int // step at which the client had received its peer_list (0 = never)
-	closedStep  int // step at which the script closed/reset it (0 = never)
-	dialStatus  int
-	log         *wsLog
-	sessID      string
+	connected  bool
+	listStep   int // step at which the client had received its peer_list (0 = never)
+	closedStep int // step at which the script closed/reset it (0 = never)
+	dialStatus int
+	log        *wsLog
+	sessID     string
 }
 
 func (c10Harness) Run(spec any) (res verifsim.RunResult) {
